@@ -170,7 +170,7 @@ fn gen_msg(b: usize, s: usize, p: usize, t: u8) -> DltMessage {
         (p as u32 + 1) * 10,
         true,
         Some((MTIN_LOG_INFO_V, 0, *b"APID", *b"CTID")),
-        vec![b as u8, (b >> 8) as u8, s as u8, p as u8],
+        vec![b as u8, (b >> 8) as u8, (b >> 16) as u8, s as u8, p as u8],
     )
 }
 /// the same message as bytes (storage framing) for the reader-backed sources
@@ -190,7 +190,7 @@ fn gen_bytes(b: usize, s: usize, p: usize, t: u8) -> Vec<u8> {
         micros: 0,
         verb_mstp_mtin: MTIN_LOG_INFO_V,
         noar: 0,
-        payload: vec![b as u8, (b >> 8) as u8, s as u8, p as u8],
+        payload: vec![b as u8, (b >> 8) as u8, (b >> 16) as u8, s as u8, p as u8],
     }
     .to_bytes()
 }
